@@ -184,7 +184,7 @@ pub fn eval_stream<M: RefModel>(run: &mut Run, bytes: &[u8]) {
 pub fn check_decode<M: RefModel>(run: &mut Run) {
     let set = <M::D as Dec>::NAME;
     run.rule = format!(
-        "Exhaustive: the reachable graph of the real {set} decoder (BFS over cloned states, 256 bytes per state) is walked in product with the reference automaton written from the property statement + README conversion table; every reachable (impl state, model context, byte) cell is compared, each cell being a real execution new(); feed(witness history); feed(byte). The same (context, byte) cells are repeated through Keyboard::add_byte. Random: structured byte streams (well-formed keys, undefined codes, prefixes in code position, raw bytes, status bytes) compared step by step with the model, shrunk by proptest. Non-trivial cell = taken from a non-initial context or yielding a key event (distinct = distinct (context, byte)); non-trivial stream = contains a multi-byte sequence and an error (distinct = distinct byte string)."
+        "Exhaustive: the reachable graph of the real {set} decoder (BFS over cloned states, 256 bytes per state) is walked in product with the reference automaton written from the property statement + README conversion table; every reachable (impl state, model context, byte) cell is compared, each cell being a real execution new(); feed(witness history); feed(byte). The same (context, byte) cells are repeated through Keyboard::add_byte. Pumping: every byte value repeated 700 times and typical sequences (typematic key, tap, shifted key, unknown codes, Pause, PrintScreen, status bytes) repeated for >= 70,000 bytes, against the model at every step. Random: structured byte streams (well-formed keys, typematic repeats, error bursts, undefined codes, prefixes in code position, raw bytes, status bytes) compared step by step with the model, shrunk by proptest. Non-trivial cell = taken from a non-initial context or yielding a key event (distinct = distinct (context, byte)); non-trivial stream = contains a multi-byte sequence and an error (distinct = distinct byte string)."
     );
     run.assumptions = vec![
         "advance_state is a deterministic function of (decoder state, byte): safe Rust, no statics/interior mutability (cross-checked by the hook-free random layer)".into(),
@@ -305,9 +305,58 @@ pub fn check_decode<M: RefModel>(run: &mut Run) {
     run.part("keyboard_add_byte_cells", json!({"cells": kcells}));
     run.exhaustive = g.closed;
 
+    // ---- (b') pumping: the same input over and over (hidden counters, repeat detection,
+    //      saturating statistics): every byte 700 times; typical patterns beyond 2^16 steps ----
+    let mut pumped = 0u64;
+    for b in 0..=255u8 {
+        eval_stream::<M>(run, &vec![b; 700]);
+        pumped += 700;
+    }
+    for pat in pump_patterns(<M::D as Dec>::IS_SET2) {
+        let reps = 70_000 / pat.len() + 1;
+        let bytes: Vec<u8> = pat.iter().copied().cycle().take(reps * pat.len()).collect();
+        pumped += bytes.len() as u64;
+        eval_stream::<M>(run, &bytes);
+        run.nontrivial_fp(fp(&("pump", <M::D as Dec>::NAME, &pat)));
+    }
+    run.part("pumping", json!({"bytes_fed": pumped, "single_byte_repeats": 700, "pattern_steps": ">= 70000 each", "patterns": pump_patterns(<M::D as Dec>::IS_SET2).iter().map(|p| hex(p)).collect::<Vec<_>>()}));
+
     // ---- (c) random structured streams -----------------------------------------------------
     let n = run.tier.pick(20_000u32, 2_000_000u32);
     random_streams::<M>(run, n);
+}
+
+/// byte patterns that are repeated tens of thousands of times
+pub fn pump_patterns(set2: bool) -> Vec<Vec<u8>> {
+    if set2 {
+        vec![
+            vec![0x1C],                                     // typematic A
+            vec![0x1C, 0xF0, 0x1C],                         // tap A
+            vec![0xE0, 0x75, 0xE0, 0xF0, 0x75],             // tap ArrowUp
+            vec![0x12, 0x1C, 0xF0, 0x1C, 0xF0, 0x12],       // shift-A
+            vec![0xFF],                                     // unknown
+            vec![0xE0, 0xFF],                               // unknown extended
+            vec![0xE0, 0xF0, 0x02, 0x1C],                   // unknown extended release, then a key
+            vec![0xE1, 0x14, 0x77, 0xE1, 0xF0, 0x14, 0xF0, 0x77], // Pause
+            vec![0xAA], vec![0x00], vec![0xFA],
+            vec![0xE0, 0x12, 0xE0, 0x7C, 0xE0, 0xF0, 0x7C, 0xE0, 0xF0, 0x12], // PrintScreen
+            vec![0x58, 0xF0, 0x58],                         // CapsLock
+        ]
+    } else {
+        vec![
+            vec![0x1E],
+            vec![0x1E, 0x9E],
+            vec![0xE0, 0x48, 0xE0, 0xC8],
+            vec![0x2A, 0x1E, 0x9E, 0xAA],
+            vec![0x7F],
+            vec![0xE0, 0x7F],
+            vec![0xE0, 0x02, 0x1E],
+            vec![0xE1, 0x1D, 0x45, 0xE1, 0x9D, 0xC5],
+            vec![0xAA], vec![0x00], vec![0xFA],
+            vec![0xE0, 0x2A, 0xE0, 0x37, 0xE0, 0xB7, 0xE0, 0xAA],
+            vec![0x3A, 0xBA],
+        ]
+    }
 }
 
 #[derive(Default)]
@@ -715,6 +764,17 @@ fn c07_for<D: Dec>(run: &mut Run) {
         &format!("{}_all_streams", D::NAME),
         json!({"length": len, "streams": streams, "with_error_followed_by_2+_bytes": nontriv, "failing_prefixes": failing.len()}),
     );
+
+    // (iii') pumping: every byte 700 times, typical patterns beyond 2^16 steps
+    for b in 0..=255u8 {
+        c07_eval_stream::<D>(run, &vec![b; 700]);
+    }
+    for pat in pump_patterns(D::IS_SET2) {
+        let reps = 70_000 / pat.len() + 1;
+        let bytes: Vec<u8> = pat.iter().copied().cycle().take(reps * pat.len()).collect();
+        c07_eval_stream::<D>(run, &bytes);
+        run.nontrivial_fp(fp(&("pump", D::NAME, &pat)));
+    }
 
     // (iv) random garbage, hook-free
     let n = run.tier.pick(20_000u32, 1_000_000u32);
